@@ -1,8 +1,9 @@
 #!/bin/bash
 # usage: tools_multiseed.sh "C01 C04 ..." "0 1 2 3 4"   — runs quick checks over several seeds (no rebuild)
-props="$1"; seeds="${2:-0 1 2 3 4}"
+here="$(cd "$(dirname "$0")" && pwd)"
+props="$1"; seeds="${2:-0 1 2 3 4}"; tier="${3:-quick}"
 for p in $props; do for s in $seeds; do
-  out=$(VERIF_SEED=$s /verif/check $p --no-build 2>&1); rc=$?
+  out=$(VERIF_SEED=$s $here/check $p --tier $tier --no-build 2>&1); rc=$?
   echo "$p seed=$s rc=$rc $(echo "$out" | grep -E "^\[$p\]" | cut -c1-160)"
-  if [ $rc -ne 0 ]; then echo "$out" | grep -E "VIOLATION|INCONCLUSIVE|signature" | cut -c1-250; mkdir -p /verif/logs/ms; cp /verif/replays/found/$p-*.json /verif/logs/ms/ 2>/dev/null; fi
+  if [ $rc -ne 0 ]; then echo "$out" | grep -E "VIOLATION|INCONCLUSIVE|signature" | cut -c1-250; mkdir -p $here/logs/ms; cp $here/replays/found/$p-*.json $here/logs/ms/ 2>/dev/null; echo "$out" > $here/logs/ms/$p-seed$s.log; fi
 done; done
